@@ -40,6 +40,8 @@ CHECK = {
     'must be the source\'s afterwards and the old Probe elements finalised exactly once (ledger), in every state',
     'Tuple sources that hold one object twice, (a,a) (a,a,b) (a,b,a): assign into a fresh and a non-empty Array/List and new(kind,Int,a,a,b) go through len/get and must work (run in a forked '
     'child, 3 s limit, label .../from-tuple-with-repeated-object/does-not-terminate); concat from such a Tuple iterates it and hangs on the pinned tree (D16 family) and is not offered',
+    'for element types that own resources (Probe, Picky, String) the Array state also carries the number of vacated spare slots and what the last removal left there '
+    '(tracked in the model: the bytes of a grown store are uninitialised and cannot be read deterministically), so reuse of a vacated slot without growth is explored from every such state',
     'a Tuple holding the same object twice is a separate opt-in dimension (instance tuple-same-object, known defect D16 of C11)',
     'white-box view obtained by compiling the repository\'s own Array.c and List.c into the harness; one instance runs black-box',
     'gcc/clang, glibc and the sanitizer run-times are trusted',
@@ -60,6 +62,11 @@ CHECK = {
       S('array4-light', 'base', 'kind=array', 'maxlen=4', 'nvals=2', 'oracle=light'),
       S('tuple5-light', 'base', 'kind=tuple', 'maxlen=5', 'nvals=2', 'oracle=light'),
       S('list3-light-asan', 'asan', 'kind=list', 'maxlen=3', 'oracle=light'),
+      # String elements (assign releases/reuses the element's old buffer): a reused vacated slot must have been cleared; the Array state carries
+      # "vacated spare slots" (model-tracked) so that histories like push x3 ; pop_at(0) ; push are not merged with growing histories
+      S('array-str4', 'base', 'kind=array', 'elem=str', 'maxlen=4'),
+      S('array-str4-asan', 'asan', 'kind=array', 'elem=str', 'maxlen=4'),
+      S('list-str3-asan', 'asan', 'kind=list', 'elem=str', 'maxlen=3'),
       # sort ladder: all permutations to length 8, enumerated families to length 64, sort() and sort_by(gt)
       S('sortladder-array', 'base', 'mode=sortladder', 'kind=array', 'sort_n=64'),
       S('sortladder-tuple', 'base', 'mode=sortladder', 'kind=tuple', 'sort_n=64'),
@@ -84,6 +91,9 @@ CHECK = {
       S('tuple7-light', 'base', 'kind=tuple', 'maxlen=7', 'nvals=2', 'oracle=light'),
       S('list4-light-asan', 'asan', 'kind=list', 'maxlen=4', 'nvals=2', 'oracle=light'),
       S('array4-light-asan', 'asan', 'kind=array', 'maxlen=4', 'nvals=2', 'oracle=light'),
+      S('array-str6', 'base', 'kind=array', 'elem=str', 'maxlen=6'),
+      S('array-str5-asan', 'asan', 'kind=array', 'elem=str', 'maxlen=5'),
+      S('list-str5-asan', 'asan', 'kind=list', 'elem=str', 'maxlen=5'),
       S('sortladder-array', 'base', 'mode=sortladder', 'kind=array', 'sort_n=100', 'perm_n=9', 'bits_n=14'),
       S('sortladder-tuple', 'base', 'mode=sortladder', 'kind=tuple', 'sort_n=100', 'perm_n=9', 'bits_n=14'),
       S('sortladder-array-asan', 'asan', 'mode=sortladder', 'kind=array', 'sort_n=64'),
